@@ -33,6 +33,10 @@ Fixpoint py_lstrip (s chars : list Z) : list Z :=
   | [] => []
   end.
 
+(* s.rstrip(chars) *)
+Definition py_rstrip (s chars : list Z) : list Z := rev (py_lstrip (rev s) chars).
+(* os.path.normcase on posix: os.fspath(s), the str itself *)
+Definition py_posix_normcase (s : list Z) : list Z := s.
 (* os.path.isabs on POSIX (posixpath.isabs): s.startswith('/') *)
 Definition py_posix_isabs (s : list Z) : bool := py_startswith s [47].
 
